@@ -239,3 +239,102 @@ Proof.
   assert (lo <= hi + 1) as Hl by lia.
   exact (Hp (proj1 (starvedb_iff n shard lo hi pre Hl) E port Hr Hm)).
 Qed.
+
+(* ---------------- successive runs in a known environment (what the driver runs) ---------------- *)
+
+Lemma memb_cons q p l : memb q (p :: l) = (q =? p) || memb q l.
+Proof. reflexivity. Qed.
+
+Lemma filter_free_remove (l busy : list N) p :
+  NoDup l -> In p l -> memb p busy = false ->
+  List.length (filter (fun q => negb (memb q busy)) l) =
+  S (List.length (filter (fun q => negb (memb q (p :: busy))) l)).
+Proof.
+  induction l as [|x l IH]; intros ND I Hp; [destruct I|].
+  inversion ND as [|? ? Hx ND']; subst. cbn [filter]. rewrite (memb_cons x p busy).
+  destruct (N.eq_dec x p) as [->|Hne].
+  - rewrite Hp, N.eqb_refl. cbn [negb orb List.length]. f_equal. f_equal.
+    apply filter_ext_in. intros q Iq. rewrite memb_cons.
+    destruct (q =? p) eqn:E; [apply N.eqb_eq in E; subst; contradiction|reflexivity].
+  - destruct I as [->|I]; [contradiction|].
+    apply N.eqb_neq in Hne. rewrite Hne. cbn [orb].
+    destruct (negb (memb x busy)); cbn [List.length]; rewrite (IH ND' I Hp); reflexivity.
+Qed.
+
+Lemma filter_nil_all {A} (f : A -> bool) (l : list A) :
+  (forall x, In x l -> f x = false) -> filter f l = [].
+Proof.
+  induction l as [|x l IH]; intros H; [reflexivity|]. cbn [filter].
+  rewrite (H x (or_introl eq_refl)). apply IH. intros y I. apply H. now right.
+Qed.
+
+Lemma env_busy_conn busy p : env_busy busy p = Connected -> memb p busy = false.
+Proof. unfold env_busy. destruct (memb p busy); [discriminate|reflexivity]. Qed.
+
+Lemma env_busy_unavail busy p : env_busy busy p = AddrUnavailable -> memb p busy = true.
+Proof. unfold env_busy. destruct (memb p busy); [reflexivity|discriminate]. Qed.
+
+(* However the pivots fall: the number of connections opened is the number of runs, capped by the
+   number of ports of the shard that are not busy; they use distinct free ports of the shard. *)
+Theorem open_many_length n s lo hi pivots busy :
+  0 < n -> s < n -> lo <= hi -> hi <= u16_max ->
+  List.length (open_many n s lo hi pivots busy) =
+  Nat.min (List.length pivots) (List.length (free_ports n s lo hi busy)).
+Proof.
+  intros Hn Hs Hle Hhi. revert busy.
+  induction pivots as [|pv r IH]; intros busy; [reflexivity|].
+  cbn [open_many List.length].
+  destruct (open_shard_aware n s lo hi pv (env_busy busy)) as [p|p e|] eqn:E.
+  - destruct (open_sa_conn n s lo hi Hn Hs Hle Hhi pv _ p E) as (Hr & Hm & Hc).
+    apply env_busy_conn in Hc. cbn [List.length]. rewrite IH. unfold free_ports.
+    rewrite (filter_free_remove (spec_ports n s lo hi) busy p);
+      [reflexivity|apply spec_ports_NoDup| |exact Hc].
+    apply spec_ports_In; [lia|tauto].
+  - destruct (open_sa_failed n s lo hi Hn Hs Hle Hhi pv _ p e E) as (_ & _ & Hc).
+    unfold env_busy in Hc. destruct (memb p busy); discriminate.
+  - rewrite IH. assert (free_ports n s lo hi busy = []) as ->.
+    { unfold free_ports. apply filter_nil_all. intros x I.
+      apply spec_ports_In in I; [|lia]. destruct I as [Hr Hm].
+      rewrite (env_busy_unavail busy x); [reflexivity|].
+      exact (proj1 (open_sa_none_iff n s lo hi Hn Hs Hle Hhi pv _) E x Hr Hm). }
+    cbn [List.length]. now rewrite !Nat.min_0_r.
+Qed.
+
+Theorem open_many_In n s lo hi pivots busy p :
+  0 < n -> s < n -> lo <= hi -> hi <= u16_max ->
+  In p (open_many n s lo hi pivots busy) -> lo <= p <= hi /\ p mod n = s /\ ~ In p busy.
+Proof.
+  intros Hn Hs Hle Hhi. revert busy.
+  induction pivots as [|pv r IH]; intros busy I; [destruct I|].
+  cbn [open_many] in I.
+  destruct (open_shard_aware n s lo hi pv (env_busy busy)) as [q|q e|] eqn:E.
+  - destruct I as [<-|I].
+    + destruct (open_sa_conn n s lo hi Hn Hs Hle Hhi pv _ q E) as (Hr & Hm & Hc).
+      apply env_busy_conn in Hc. repeat split; try tauto.
+      intros Ib. apply memb_In in Ib. congruence.
+    + destruct (IH _ I) as (Hr & Hm & Hb). repeat split; try tauto.
+      intros Ib. apply Hb. now right.
+  - now apply IH.
+  - now apply IH.
+Qed.
+
+(* the check "some pivot gives this port" is what it says *)
+Theorem some_pivot_gives_iff n s lo hi busy port k :
+  some_pivot_gives n s lo hi busy port k = true <->
+  exists pivot, (pivot < k)%nat /\ open_shard_aware n s lo hi pivot (env_busy busy) = Conn port.
+Proof.
+  induction k as [|k IH]; cbn [some_pivot_gives].
+  - split; [discriminate|]. intros (pv & H & _). lia.
+  - destruct (open_shard_aware n s lo hi k (env_busy busy)) as [p|p e|] eqn:E.
+    + rewrite orb_true_iff, N.eqb_eq, IH. split.
+      * intros [->|(pv & H & Hp)]; [exists k; split; [lia|exact E]|exists pv; split; [lia|exact Hp]].
+      * intros (pv & H & Hp). destruct (Nat.eq_dec pv k) as [->|Hne].
+        -- left. congruence.
+        -- right. exists pv. split; [lia|exact Hp].
+    + rewrite IH. split; intros (pv & H & Hp).
+      * exists pv. split; [lia|exact Hp].
+      * destruct (Nat.eq_dec pv k) as [->|Hne]; [congruence|]. exists pv. split; [lia|exact Hp].
+    + rewrite IH. split; intros (pv & H & Hp).
+      * exists pv. split; [lia|exact Hp].
+      * destruct (Nat.eq_dec pv k) as [->|Hne]; [congruence|]. exists pv. split; [lia|exact Hp].
+Qed.
